@@ -37,12 +37,25 @@ PI = np.pi
 TOL = 1e-12
 
 
-def verify(n, peaks, troughs, rises, decays, rec, note=''):
-    sig = np.zeros(n)
-    P = np.array(peaks, dtype=int)
-    T = np.array(troughs, dtype=int)
-    R = None if rises is None else np.array(rises, dtype=int)
-    D = None if decays is None else np.array(decays, dtype=int)
+VARIANTS = [('float64', 'asc')] * 5 + [('float32', 'asc'), ('int16', 'asc'), ('int64', 'rev'), ('float64', 'rev'), ('float64', 'perm'), ('list', 'asc')]
+
+
+def verify(n, peaks, troughs, rises, decays, rec, note='', variant=0):
+    # only len(sig) is documented to matter; the cyclepoints are a set, so the order inside each array must not matter
+    dtype, order = VARIANTS[variant % len(VARIANTS)]
+    sig = [0] * n if dtype == 'list' else np.zeros(n, dtype=dtype)
+
+    def arr(v):
+        v = list(v)
+        if order == 'rev':
+            v = v[::-1]
+        elif order == 'perm':
+            v = v[1::2] + v[0::2]
+        return np.array(v, dtype=int)
+    P, T = arr(peaks), arr(troughs)
+    R = None if rises is None else arr(rises)
+    D = None if decays is None else arr(decays)
+    rec.label('sig:' + dtype, 'order:' + order)
     pha = guarded(extrema_interpolated_phase, sig, P.copy(), T.copy(), rises=None if R is None else R.copy(),
                   decays=None if D is None else D.copy())
     pha = np.asarray(pha, dtype=float)
@@ -92,7 +105,7 @@ def verify(n, peaks, troughs, rises, decays, rec, note=''):
 
 
 def check_enum(case, rec):
-    verify(case['n'], case['peaks'], case['troughs'], case['rises'], case['decays'], rec)
+    verify(case['n'], case['peaks'], case['troughs'], case['rises'], case['decays'], rec, variant=case.get('variant', 0))
 
 
 def extrema_sequences(n):
@@ -117,7 +130,7 @@ def enum(tier, shard, nshards):
                 kinds = [start if i % 2 == 0 else ('T' if start == 'P' else 'P') for i in range(len(seq))]
                 peaks = [i for i, k in zip(seq, kinds) if k == 'P']
                 troughs = [i for i, k in zip(seq, kinds) if k == 'T']
-                yield {'n': n, 'peaks': peaks, 'troughs': troughs, 'rises': None, 'decays': None}
+                yield {'n': n, 'peaks': peaks, 'troughs': troughs, 'rises': None, 'decays': None, 'variant': count}
                 flanks = list(zip(seq[:-1], seq[1:], kinds[:-1]))
                 # leading / trailing midpoints only on the shorter arrays (keeps the product bounded)
                 lead_opts = [None] + (list(range(0, seq[0])) if n <= nmax - 2 else [])
@@ -132,7 +145,8 @@ def enum(tier, shard, nshards):
                                 (decays if k == 'P' else rises).append(m)
                             if trail is not None:
                                 (decays if kinds[-1] == 'P' else rises).append(trail)
-                            yield {'n': n, 'peaks': peaks, 'troughs': troughs, 'rises': rises, 'decays': decays}
+                            yield {'n': n, 'peaks': peaks, 'troughs': troughs, 'rises': rises, 'decays': decays,
+                                   'variant': count + len(rises) + (lead or 0) + (trail or 0)}
 
 
 def check_pipeline(case, rec):
@@ -162,7 +176,7 @@ def check_pipeline(case, rec):
     D = list(map(int, decays)) if mode in ('both', 'decays') else None
     rec.label(*gen.signal_classes(case['sig']))
     rec.label('mids:' + mode, 'first:%s' % case['first'], 'tail:%d' % case['tail'])
-    verify(n, list(map(int, peaks)), list(map(int, troughs)), R, D, rec, note='(pipeline)')
+    verify(n, list(map(int, peaks)), list(map(int, troughs)), R, D, rec, note='(pipeline)', variant=case.get('variant', 0))
 
 
 @st.composite
@@ -176,7 +190,7 @@ def strat_pipeline(draw, tier):
     sig = draw(gen.st_signal(band, n, tie_rich=draw(st.booleans())))
     return {'fs': fs, 'f_range': [f_lo, f_hi], 'sig': sig, 'fk': fk, 'boundary': draw(st.sampled_from([0, 0, 1, 2, 5])),
             'first': draw(st.sampled_from(['peak', 'trough', None])), 'tail': draw(st.sampled_from([0, 0, 1, 1, 2, 3, 50])),
-            'mids': draw(st.sampled_from(['both', 'both', 'none', 'rises', 'decays']))}
+            'mids': draw(st.sampled_from(['both', 'both', 'none', 'rises', 'decays'])), 'variant': draw(st.integers(0, 10))}
 
 
 def decode(fdp):
@@ -193,7 +207,7 @@ def decode(fdp):
     troughs = [i for i, k in zip(seq, kinds) if k == 'T']
     mode = fdp.ConsumeIntInRange(0, 3)
     if mode == 0:
-        return {'n': n, 'peaks': peaks, 'troughs': troughs, 'rises': None, 'decays': None}
+        return {'n': n, 'peaks': peaks, 'troughs': troughs, 'rises': None, 'decays': None, 'variant': fdp.ConsumeIntInRange(0, 10)}
     rises, decays = [], []
     if mode == 3 and seq[0] > 0:
         (decays if kinds[0] == 'T' else rises).append(fdp.ConsumeIntInRange(0, seq[0] - 1))
@@ -203,7 +217,7 @@ def decode(fdp):
         (decays if kinds[-1] == 'P' else rises).append(fdp.ConsumeIntInRange(seq[-1] + 1, n - 1))
     if mode == 2:
         return {'n': n, 'peaks': peaks, 'troughs': troughs, 'rises': rises if fdp.ConsumeBool() else None, 'decays': decays}
-    return {'n': n, 'peaks': peaks, 'troughs': troughs, 'rises': rises, 'decays': decays}
+    return {'n': n, 'peaks': peaks, 'troughs': troughs, 'rises': rises, 'decays': decays, 'variant': fdp.ConsumeIntInRange(0, 10)}
 
 
 PARTS = [
